@@ -21,42 +21,54 @@ property statement (plus the analytic Fourier symbol of the filter, which the st
     multiplied by the predicted symbol, measured amplification in [0,1], output bitwise independent
     of garbage (finite / NaN payloads / zeros) pre-loaded into the two work buffers.
 
-Tolerances (K * eps_t * magnitude, measured max err/tol on the unchanged tree, seeds 0..5, both tiers):
-  brinkmann bounds/monotone 16 eps max(|f|,|t|)            measured <= 0.10
-  heaviside range 4 eps, monotone/sum 8 eps                 measured <= 0.13
-  damping ring 4 eps (pi/2)(N/w) M_edge                     measured <= 0.12   (-Ofast contracts
-       a*(x_end - x) to fma(a, -x, a*x_end): the ring is not exactly 0 on the back faces)
-  damping zone bound 4 eps M_edge                           measured 0 (sin < 1 strictly)
-  filter symbol 4 eps (3+order) A                           measured <= 0.10
-  checkerboard 4 eps A                                      measured 0 (exact)
+Tolerances (K * eps_t * magnitude; measured max err/tol on the unchanged tree + F6.diff, seeds 0..5 quick,
+0..1 thorough, both precisions):
+  brinkmann bounds / monotone / limit   32 eps max(|f|,|t|)              measured <= 0.063
+  brinkmann chi == 0                    float64 bitwise; float32 4 eps|f| measured <= 0.25 (1 ulp)
+  heaviside range, monotone, symmetry, edge values   16 eps              measured <= 0.063 (1 eps)
+  heaviside joints                      2 (h/w)^2 + 16 eps               measured <= 0.051
+  damping ring                          8 eps (pi/2)(N/w) M_edge         measured <= 0.053   (-Ofast contracts
+       a*(x_end - x) into fma(a, -x, a*x_end), so the ring is ~4 eps*M and not exactly 0 on the back faces)
+  damping zone bound                    4 eps M_edge                     measured < 0 (sin < 1 strictly)
+  filter symbol                         8 eps (3+order) A                measured <= 0.061
+  checkerboard                          4 eps A                          measured 0 (exact)
 
 Expected on the pinned tree: finding F6 -- width 1 raises ValueError in 2-D and 3-D
-(``field[..., -w:(-w+1)]`` is the empty slice) => VIOLATION "boundary-damping-width1-raises".
-With /verif/fixes/F6.diff applied the check holds.
+(``field[..., -w:(-w+1)]`` is the empty slice) => VIOLATION "boundary-damping-width1-raises" (12 witnesses
+per quick run: 2-D / 3-D scalar / both precisions, 3 kept per shard).  With /verif/fixes/F6.diff applied the
+check holds (`tools/mut.sh /verif/fixes/F6.diff C19` prints HELD).
 
-Deliberate breaks tried (tools/mut.sh --sed ..., quick tier, on top of F6.diff where the file is the
-damping kernel so that the F6 violation does not mask the result):
-  file (under sopht/numeric/...)                 mutation                                   verdict / mechanism
-  see MUTATIONS at the end of this docstring (filled in from the actual runs)
+Not covered by the statement but seen while probing: ``gen_laplacian_filter_kernel_3d(filter_order=0)`` is
+accepted by the argument check and is NOT the identity -- the loop body never runs and the stale interior of
+``filter_flux_buffer`` is subtracted from the field (history dependent).  The property quantifies over
+order >= 1, so this is reported to the owner, not alarmed on.
 
-MUTATIONS
-  brinkmann_penalise_2d.py   denominator 1 + l*chi -> 1 - l*chi (scalar kernel)            VIOLATION brinkmann-out-of-[f,t]
-  brinkmann_penalise_3d.py   numerator l*chi*t -> 2*l*chi*t                                VIOLATION brinkmann-out-of-[f,t]
-  brinkmann_penalise_2d.py   vs-fixed-val denominator 1 + -> 1 -                           VIOLATION brinkmann-out-of-[f,t]
-  BrinkmannBoundaryForcing   denominator 1 + c*dt -> 1 - c*dt                              VIOLATION brinkmann-out-of-[f,t]
-  BrinkmannBoundaryForcing   numerator weight c*dt -> c (dt dropped)                       VIOLATION brinkmann-out-of-[f,t]
-  char_func_2d.py            1 + phi/w -> 1 - phi/w                                        VIOLATION heaviside-decreasing (+ sum, range)
-  char_func_3d.py            sin -> cos                                                    VIOLATION heaviside-H(phi)+H(-phi)!=1
-  char_func_2d.py            + sin/pi -> - sin/pi  (still monotone, in [0,1], symmetric)   VIOLATION heaviside-joint-not-smooth
-  char_func_3d.py            '> blend_width' -> '> 0.5*blend_width' in the 0-branch        VIOLATION heaviside-decreasing / !=0|1-beyond-width
-  penalise_field_boundary_2d broadcast target [:, :width] -> [:, :width+1]                 VIOLATION damping-outside-zone-changed
-  penalise_field_boundary_3d sin -> cos (x front kernel)                                   VIOLATION damping-ring!=0
-  penalise_field_boundary_2d broadcast source (width-1):width -> width:(width+1)           VIOLATION damping-zone>inner-edge-max
-  penalise_field_boundary_3d y broadcast removed                                           VIOLATION damping-zone>inner-edge-max
-  laplacian_filter_3d.py     0.25 -> 0.3 in the x stencil                                  VIOLATION filter-checkerboard-not-annihilated, filter-symbol
-  laplacian_filter_3d.py     set_fixed_val_at_boundaries_3d call removed (multiplicative)  VIOLATION filter-depends-on-buffer-garbage
-  laplacian_filter_3d.py     saxpby field_2_prefac -1.0 -> +1.0                            VIOLATION filter-symbol, filter-amplification-outside-[0,1]
-  laplacian_filter_3d.py     y stencil reads x neighbours (axis swap)                      VIOLATION filter-symbol
+MUTATIONS  (tools/mut.sh, quick tier, seed 0; damping mutants on top of F6.diff so that F6 does not mask them;
+            every one reported VIOLATION with the mechanisms listed)
+  brinkmann_penalise_2d.py:37    denominator 1 + l*chi -> 1 - l*chi             brinkmann-out-of-[f,t], -not-monotone-in-lambda, -no-approach-to-target
+  brinkmann_penalise_3d.py:36    numerator l*chi*t -> 2*l*chi*t                 brinkmann-out-of-[f,t], -not-monotone-in-lambda, -no-approach-to-target
+  brinkmann_penalise_2d.py:102   vs-fixed-val denominator 1 + -> 1 -            brinkmann-out-of-[f,t] (+ the two above)
+  BrinkmannBoundaryForcing:135   denominator 1 + c*dt -> 1 - c*dt               brinkmann-out-of-[f,t] (+ the two above)
+  BrinkmannBoundaryForcing:134   numerator weight c*dt -> c (dt dropped)        brinkmann-out-of-[f,t]
+  char_func_2d.py:43             1 + phi/w -> 1 - phi/w                         heaviside-decreasing, -edge-value, -joint-not-smooth
+  char_func_3d.py:44             sin -> cos                                     heaviside-H(phi)+H(-phi)!=1, -decreasing, -edge-value, -outside-[0,1], -joint-not-smooth
+  char_func_2d.py:44             + sin/pi -> - sin/pi                           heaviside-joint-not-smooth ONLY (this mutant is still monotone, in
+                                                                                [0,1], 0/1 beyond the width and symmetric; only "smooth" separates it)
+  char_func_3d.py:39             |phi| > w -> |phi| > 0.5 w                     heaviside-decreasing, -H(phi)+H(-phi)!=1, -edge-value, -joint-not-smooth
+  penalise_field_boundary_2d     broadcast target [:, :width] -> [:, :width+1]  damping-outside-zone-changed
+  penalise_field_boundary_3d:87  x-front ramp sin -> cos                        damping-ring!=0
+  penalise_field_boundary_2d     broadcast source (w-1):w -> w:(w+1)            damping-zone>inner-edge-max, damping-ring!=0
+  penalise_field_boundary_3d     y-front broadcast line deleted                 damping-zone>inner-edge-max, damping-ring!=0
+  penalise_field_boundary_3d     z-back broadcast source -w:(-w+1) -> -w-1:-w   damping-zone>inner-edge-max, damping-ring!=0
+  laplacian_filter_3d.py:61      x stencil 0.25 -> 0.3                          filter-symbol, filter-checkerboard-not-annihilated
+  laplacian_filter_3d.py:99      ring reset of the flux buffer removed (mult.)  filter-depends-on-buffer-garbage, filter-constant-not-fixed
+  laplacian_filter_3d.py:124     ring reset removed (convolution)               filter-depends-on-buffer-garbage, filter-constant-not-fixed
+  laplacian_filter_3d.py:117     saxpby field_2_prefac -1.0 -> +1.0 (mult.)     filter-symbol, filter-checkerboard-not-annihilated, filter-amplification-outside-[0,1]
+  laplacian_filter_3d.py:162     saxpby -1.0 -> +1.0 (convolution, z pass)      filter-symbol (checkerboard still annihilated by the x and y factors)
+  laplacian_filter_3d.py:68      y stencil reads the x neighbours               filter-symbol, filter-checkerboard-not-annihilated
+  laplacian_filter_3d.py:75      z stencil centre weight 2 -> 2.1               filter-symbol, filter-constant-not-fixed, filter-checkerboard-not-annihilated
+  not killable by this property: iteration slice [:, :width] -> [:, :width+1] of a ramp kernel (multiplies the
+  first cell outside the zone by sin(pi/2) == 1).
 """
 import itertools
 
